@@ -4,8 +4,8 @@ import vlib
 
 META = {
     "category": "proof",
-    "text": "PROVED in Lean (Props/C06.lean, about models): (1) generic: every coder that is the image of a byte machine gives the same concatenated output, final lzma_ret, consumed count and final state under any two fair slicings (any number of (avail_in, avail_out) pieces, empty calls included); unfair slicings are prefix-consistent. (2) instances, each by a call-by-call simulation theorem chunk-faithful coder = ofByteMachine(machine): lzma_vli_decode with persistent vli_pos (what every slicing computes = the specification decoder vliDecode), the lzma_bufcpy fixed-size field reader, the LZMA2 chunk-header sequence machine (event trace identical under all slicings; LZMA payload and dictionary abstract), the Index decoder sequence machine (same Records/CRC32/verdict). Delta: encoder reading the caller's input under arbitrary slicings = Delta.encode of the whole buffer; delta encoder AND decoder behind ANY next coder = the next coder's run with the output transformed as one stream. lzma_vli_encode: two-window split lemma only. (3) simple_code(): for every filter satisfying the BCJ contract the output under every slicing is a prefix of / at LZMA_STREAM_END equal to the filter applied once to the whole input; the contract is PROVED for the eight real filter models x86 (with carried prev_mask/prev_pos; inputs < 4 GiB - 5), powerpc, ia64, arm, armthumb, sparc, arm64, riscv, encoder and decoder, from C15's chunk-stability theorems; the C06 model of simple_code() is proved equal call by call to C15's model Simple.simpleCode (the one C15 ties to the C function with the real filters), and the slicing theorem is stated for that model with no hypothesis left (next.code == NULL or pass-through next coder). (4) threaded encoder: every finished run of C08's transition system (any thread count >= 1, timeout, schedule, slicing of lzma_code calls) writes the same bytes as a function of (input, block_size, flush offsets, accepted lzma_filters_update calls) - from C08.mtenc_deterministic/mtenc_output plus a filter-chain invariant. CORRESPONDENCE ONLY (model vs real function call by call, this check): vliDecodeMulti/vliEncodeMulti, fieldCoder, Coder.simpleCode with a test filter (null next and stub next coders), delta, ixFeed, l2Feed. ORACLE ONLY (C vs C, no model): every public coder of liblzma (all decoders incl. threaded, all encoders incl. threaded) on the same input under whole-buffer, byte-at-a-time with empty calls, every two-piece input/output split and random slicings - output bytes, final lzma_ret, total_in/total_out and informational return codes must be identical; encoders additionally across thread counts, timeouts and struct vs string filter chains; tiny output windows (1,2,3,5,7 bytes per call); a seeded half of the cases on a re-initialised handle (no lzma_end) last used by another coder, after runs that ended in success, error or were abandoned mid-stream.",
-    "note": "Trusted: Lean kernel + propext/Classical.choice/Quot.sound (+ the bv_decide certificates of Lemmas/BitWords* inherited from C15's x86 lemmas); harness/c06_*.c (generic run_sliced driver); the C compiler; ASan/UBSan observe memory errors at run time only. No theorem is about the C text: the tie of the models to the code is the call-by-call correspondence of this check (small coders) and of C15 (simple_code with the real filters) and C08 (MT encoder traces). NOT modelled, hence covered by the C-vs-C slicing oracle only: the LZMA symbol decoder's ~25 SEQ_* resume points, the LZ window, the LZMA/LZMA2 encoders and fill_window, the container coders (stream/block/alone/lzip/auto decoders and encoders), simple_code() behind a real (non-pass-through) next coder, n-piece lzma_vli_encode. MT determinism is a theorem about the transition-system model of stream_encoder_mt.c (Block encoding abstract); on the real code it is exercised over thread counts/timeouts/OS schedules.",
+    "text": "PROVED in Lean (Props/C06.lean, about models): (1) generic: every coder that is the image of a byte machine gives the same concatenated output, final lzma_ret, consumed count and final state under any two fair slicings (any number of (avail_in, avail_out) pieces, empty calls included); unfair slicings are prefix-consistent. (2) instances, each by a call-by-call simulation theorem chunk-faithful coder = ofByteMachine(machine): lzma_vli_decode with persistent vli_pos (what every slicing computes = the specification decoder vliDecode), lzma_vli_encode with persistent vli_pos under any sequence of output windows (= the specification encoder vliEncode), the lzma_bufcpy fixed-size field reader, the LZMA2 chunk-header sequence machine (event trace identical under all slicings; LZMA payload and dictionary abstract), the Index decoder sequence machine (same Records/CRC32/verdict). Delta: encoder reading the caller's input under arbitrary slicings = Delta.encode of the whole buffer; delta encoder AND decoder behind ANY next coder = the next coder's run with the output transformed as one stream. (3) simple_code(): for every filter satisfying the BCJ contract the output under every slicing is a prefix of / at LZMA_STREAM_END equal to the filter applied once to the whole input; the contract is PROVED for the eight real filter models x86 (with carried prev_mask/prev_pos; inputs < 4 GiB - 5), powerpc, ia64, arm, armthumb, sparc, arm64, riscv, encoder and decoder, from C15's chunk-stability theorems; the C06 model of simple_code() is proved equal call by call to C15's model Simple.simpleCode (the one C15 ties to the C function with the real filters), and the slicing theorem is stated for that model with no hypothesis left (next.code == NULL or pass-through next coder); simple_code() behind ANY next coder that is a byte machine and ends with LZMA_STREAM_END (the BCJ decoder configuration; simple_code re-slices the next coder's output into out[] and coder->buffer[]) is slicing independent for every filter with the contract, in particular the eight real ones in both directions. (4) threaded encoder: every finished run of C08's transition system (any thread count >= 1, timeout, schedule, slicing of lzma_code calls) writes the same bytes as a function of (input, block_size, flush offsets, accepted lzma_filters_update calls) - from C08.mtenc_deterministic/mtenc_output plus a filter-chain invariant. CORRESPONDENCE ONLY (model vs real function call by call, this check): vliDecodeMulti/vliEncodeMulti, fieldCoder, Coder.simpleCode with a test filter (null next and stub next coders), delta, ixFeed, l2Feed. ORACLE ONLY (C vs C, no model): every public coder of liblzma (all decoders incl. threaded, all encoders incl. threaded) on the same input under whole-buffer, byte-at-a-time with empty calls, every two-piece input/output split and random slicings - output bytes, final lzma_ret, total_in/total_out and informational return codes must be identical; encoders additionally across thread counts, timeouts and struct vs string filter chains; tiny output windows (1,2,3,5,7 bytes per call); a seeded half of the cases on a re-initialised handle (no lzma_end) last used by another coder, after runs that ended in success, error or were abandoned mid-stream.",
+    "note": "Trusted: Lean kernel + propext/Classical.choice/Quot.sound (+ the bv_decide certificates of Lemmas/BitWords* inherited from C15's x86 lemmas); harness/c06_*.c (generic run_sliced driver); the C compiler; ASan/UBSan observe memory errors at run time only. No theorem is about the C text: the tie of the models to the code is the call-by-call correspondence of this check (small coders) and of C15 (simple_code with the real filters) and C08 (MT encoder traces). NOT modelled, hence covered by the C-vs-C slicing oracle only: the LZMA symbol decoder's ~25 SEQ_* resume points, the LZ window, the LZMA/LZMA2 encoders and fill_window, the container coders (stream/block/alone/lzip/auto decoders and encoders), the path of simple_code() on which its next coder FAILS (the C code returns at once with unfiltered bytes in out[]; only status/consumed are compared there). MT determinism is a theorem about the transition-system model of stream_encoder_mt.c (Block encoding abstract); on the real code it is exercised over thread counts/timeouts/OS schedules.",
     "technique": "Lean 4 proof over an executable model + differential slicing oracle on the implementation",
 }
 
@@ -237,7 +237,13 @@ def classify_block_lookahead(H, coder, data, pair):
     if len(pair) != 2 or any(q is None or q["ret"] != 9 for q in pair):
         return False
     a, b = pair
-    if (a["len"], a["hash"], a["out"]) != (b["len"], b["hash"], b["out"]):
+    bcj = bool(a["bcj"] or b["bcj"])
+    if not bcj and (a["len"], a["hash"], a["out"]) != (b["len"], b["hash"], b["out"]):
+        return False
+    # Behind a BCJ filter the property fixes only status and total_in, and the filter may still hold back up to 2 * 16 decoded
+    # bytes in the run that was cut earlier: then one run must have delivered all declared output and the other nearly all.
+    top, low = max(a["out"], b["out"]), min(a["out"], b["out"])
+    if bcj and top - low > 32:
         return False
     if kind in ("sd", "auto", "sdmt"):
         blocks = xz_blocks(data)
@@ -256,7 +262,7 @@ def classify_block_lookahead(H, coder, data, pair):
         if unc is None:
             return False
         ucum += unc
-        if a["out"] == ucum:
+        if top == ucum:
             hi = de if de is not None else len(data)
             ins = [a["in"], b["in"]]
             if kind == "sdmt":
